@@ -39,12 +39,44 @@ class BadReduce(object):
         return 'BadReduce()'
 
 
+class BadReprKE(object):
+    """like BadRepr, but the refusal is a KeyError - the exception klepto's own code uses for 'not cached'"""
+    def __repr__(self):
+        raise KeyError('repr refused')
+    __str__ = __repr__
+    def __eq__(self, o):
+        return isinstance(o, BadReprKE)
+    def __hash__(self):
+        return 13
+
+
+class BadHashKE(object):
+    def __hash__(self):
+        raise KeyError('hash refused')
+    def __eq__(self, o):
+        return isinstance(o, BadHashKE)
+    def __repr__(self):
+        return 'BadHashKE()'
+
+
+class BadReduceKE(object):
+    def __reduce_ex__(self, proto):
+        raise KeyError('reduce refused')
+    def __eq__(self, o):
+        return isinstance(o, BadReduceKE)
+    def __hash__(self):
+        return 17
+    def __repr__(self):
+        return 'BadReduceKE()'
+
+
 def _gen():
     yield 1
 
 
 SPECIALS = {
     'badrepr': BadRepr, 'badhash': BadHash, 'badreduce': BadReduce,
+    'badrepr_ke': BadReprKE, 'badhash_ke': BadHashKE, 'badreduce_ke': BadReduceKE,
     'lock': threading.Lock, 'generator': _gen,
 }
 
